@@ -48,6 +48,7 @@ def check(ctx, run):
     run.rule("R6", "end-of-test verdict: unfulfilled is reported iff the last call was fulfilled and calls are left, and the out-of-order check runs AFTER it (on the cleared mock); the plugin checks iff the test has not failed and always clears", floor=6)
     run.rule("R7", "tolerance side: hasInputParameter compares with the expectation's stored value as receiver", floor=2)
     run.rule("R8", "return-value getters (SIBLING): return<T>Value reads get<T>Value of the same T; return<T>ValueOrDefault defaults iff !hasReturnValue(); returnValue checks expectations first and reads the matched expectation", floor=24)
+    run.rule("R10", "no stale per-call marks: an expectation dropped from a call's candidate list is clean before it can be a candidate again (reset where it is dropped, or all candidates reset when a call collects them)", floor=2)
     run.rule("R9", "matching-state reset coverage: every field or per-parameter flag set by the per-call marker methods is reset by resetActualCallMatchingState", floor=3)
 
     # ---------------- R1 / R2 -----------------------------------------------
@@ -305,6 +306,47 @@ def check(ctx, run):
         if me is False and "matchingExpectation_" in r:
             okr = False
     run.ob("R8", "returnValue finishes the call first and reads the matched expectation's value", rv.site, okr)
+
+    # ---------------- R10 ---------------------------------------------------
+    # An expectation dropped from the candidate list of a call keeps whatever the marker methods set on it during that
+    # call (it stays in the list of all expectations). It must be clean again before it can be a candidate of a later
+    # call: either every pruning primitive used on the candidates resets what it drops, or a new call resets all of
+    # its candidates when it collects them.
+    ELIST, ACALL = "MockExpectedCallsList", "MockCheckedActualCall"
+    prunes = {}
+    for f in prog.methods_of(ELIST):
+        nulls = [n for l, r, n in assignments(f) if l.endswith("->expectedCall_") and is_null(f, f.node(n["rhs"]))]
+        if nulls:
+            resets = True
+            for n in nulls:
+                # the reset must be in the same guarded statement as the drop
+                par = next((a_ for a_ in f.ancestors(n) if a_["k"] in ("CompoundStmt", "IfStmt")), None)
+                calls_here = [(prog.callee_name(f, c) or "") for c in (f.calls(par) if par is not None else [])]
+                if not any(c.endswith("::resetActualCallMatchingState") for c in calls_here):
+                    resets = False
+            prunes[f.name] = resets
+    used = set()
+    for f in prog.methods_of(ACALL):
+        for c in f.calls():
+            nm = (prog.callee_name(f, c) or "")
+            if nm.startswith(ELIST + "::") and nm.split("::")[-1] in prunes and c.get("obj") is not None and render(f, f.node(c["obj"])) == "potentiallyMatchingExpectations_":
+                used.add(nm.split("::")[-1])
+    ctors = [f for f in prog.methods_of(ACALL) if f.kind == "ctor"]
+    ctor_resets = bool(ctors)
+    for f in ctors:
+        run.analysed(f)
+        for p in enumerate_paths(f):
+            names = [(render(f, f.node(c["obj"])) if c.get("obj") is not None else "", (prog.callee_name(f, c) or "").split("::")[-1]) for c in path_calls(prog, f, p)]
+            add = [i for i, x in enumerate(names) if x == ("potentiallyMatchingExpectations_", "addPotentiallyMatchingExpectations")]
+            rst = [i for i, x in enumerate(names) if x == ("potentiallyMatchingExpectations_", "resetActualCallMatchingState")]
+            if not add or not rst or max(add) > max(rst):
+                ctor_resets = False
+    dirty = sorted(m for m in used if not prunes[m])
+    ok10 = ctor_resets or not dirty
+    run.ob("R10", "no stale per-call marks: candidates dropped by a pruning primitive are reset there, or a new actual call resets its candidates when it collects them", (ctors[0].site if ctors else ACALL), ok10 and bool(used),
+           witness={"pruning primitives used on the candidates (resets what it drops)": {m: prunes[m] for m in sorted(used)}, "a new call resets its candidates": ctor_resets},
+           what="" if ok10 else "expectations dropped by %s keep the parameter/object marks of the call that dropped them: a later call that omits such a parameter is accepted (findings/F19-stale-parameter-match-flags)" % dirty)
+    run.ob("R10", "pruning primitives of the candidate list found", ELIST, len(used) >= 4, witness=sorted(used))
 
     # ---------------- R9 ----------------------------------------------------
     markers = ["wasPassedToObject", "finalizeActualCallMatch", "inputParameterWasPassed", "outputParameterWasPassed"]
